@@ -1801,6 +1801,10 @@ func (f *FnCtx) makeIface(st *bstate, v Val, t types.Type) Val {
 	tag := intLit(int64(f.e.tags.tag(t)))
 	switch v.K {
 	case KStruct:
+		if stt, ok := t.Underlying().(*types.Struct); ok && stt.NumFields() == 0 {
+			// all values of a field-less struct type are equal (context keys): one canonical box
+			return Val{K: KAny, T: it, Tm: app("any_ref", tag, "0")}
+		}
 		r := f.c.freshConst("box", sortInt)
 		f.assumeBoxed(st, r, v, t)
 		return Val{K: KAny, T: it, Tm: app("any_ref", tag, r)}
